@@ -32,6 +32,16 @@ def mc(chk, name, c, workers=8, timeout=1800, expect_violation=None, needs=()):
     return r
 
 
+def live(chk, name, c):
+    """liveness under weak fairness of the read loop (unconstrained FairSpec): every frame that arrived is eventually delivered"""
+    cfg = write_cfg(name, "FairSpec", c, properties=["AllDelivered"])
+    r = tlc("MC_Conn", cfg, name, workers=4, timeout=900, coverage=False)
+    if r.violated:
+        raise ToolError(f"liveness AllDelivered fails on the specification of record (see {r.out_path})")
+    chk.add_tlc(name, r)
+    log(f"[tlc] {name}: AllDelivered holds under fairness ({r.distinct} states, {r.wall:.0f}s)")
+
+
 def emit(chk, name, c, timeout=400, simulate=None, seed=None):
     """Generate behaviours (history kept in the state, one line per finished behaviour)."""
     cfg = write_cfg(name, "EmitSpec", c, invariants=["InOrder", "NoLoss", "FramingInv", "PongsOk", "WritesOk", "EmitInv"],
@@ -144,13 +154,7 @@ def check_C05(chk):
     mc(chk, "c05_stream", consts(MaxFrames="= 4" if thorough else "= 3", MaxErr="= 1", Verifies="<- GateOn", Lens="<- L48", Cap="= 12"),
        workers=14 if thorough else 8, timeout=3000, needs=("FillStream", "FillErr", "FillEof", "TryDecode"))
     mc(chk, "c05_short", consts(Classes="<- ClsShort", Verifies="<- GateOn"))
-    # liveness under weak fairness of the read loop (unconstrained FairSpec): every frame that arrived is eventually delivered
-    cfg = write_cfg("c05_live", "FairSpec", consts(MaxFrames="= 2", Classes="<- ClsUdp", Verifies="<- GateOn", KeepHist="= FALSE"), properties=["AllDelivered"])
-    r = tlc("MC_Conn", cfg, "c05_live", workers=4, timeout=900, coverage=False)
-    if r.violated:
-        raise ToolError(f"liveness AllDelivered fails on the specification of record (see {r.out_path})")
-    chk.add_tlc("c05_live", r)
-    log(f"[tlc] c05_live: AllDelivered holds under fairness ({r.distinct} states, {r.wall:.0f}s)")
+    live(chk, "c05_live", consts(MaxFrames="= 2", Classes="<- ClsUdp", Verifies="<- GateOn", KeepHist="= FALSE"))
     # non-vacuity: a connection that loses the tail of a datagram / drops the buffer must be caught by the same invariants
     mc(chk, "c05_mut_direct", consts(Transports="<- TUdp", Classes="<- ClsUdp", Flavors="<- OnlyTokio", Verifies="<- GateOn",
                                      MaxFrames="= 4", UdpPolicy='= "direct"'), expect_violation="NoLoss")
@@ -363,13 +367,14 @@ def check_C08(chk):
                 "result and every datagram observed by the peer is validated by Trace_Conn.")
     mc(chk, "c08_udp", consts(Transports="<- TUdp", Classes="<- ClsUdp", Verifies="<- GateOn", MaxFrames="= 5" if thorough else "= 4",
                               MaxErr="= 1", MaxWrites="= 1", WLens="<- W4"), needs=("DoPeerDgram2", "FillUdpBuffered"))
+    live(chk, "c08_live", consts(Transports="<- TUdp", Classes="<- ClsUdp", Verifies="<- GateOn", MaxFrames="= 3", KeepHist="= FALSE"))
     mc(chk, "c08_mut_direct", consts(Transports="<- TUdp", Classes="<- ClsUdp", Flavors="<- OnlyTokio", Verifies="<- GateOn",
                                      MaxFrames="= 4", UdpPolicy='= "direct"'), expect_violation="NoLoss")
     nd, n = emit(chk, "c08_emit", consts(Transports="<- TUdp", Classes="<- ClsPong", Verifies="<- GateOn", MaxFrames="= 3",
                                          FrameOK="<- FrameReal", MaxWrites="= 1", WLens="<- W8"))
     net_replay(chk, nd, chk.seed)
     for i in range(3 if thorough else 1):
-        p, info = gen_net_trace(f"c08_trace{i}", "udp", chk.seed * 100 + i, sessions=4, nbytes=700000 if thorough else 15000)
+        p, info = gen_net_trace(f"c08_trace{i}", "udp", chk.seed * 100 + i, sessions=8 if thorough else 4, nbytes=60000 if thorough else 15000)
         if i == 0:
             sample_trace(chk, p, 8)
         trace_validate(chk, f"c08_tv{i}", p, "udp session")
@@ -386,11 +391,13 @@ def check_C20(chk):
     mc(chk, "c20_ws", consts(Transports="<- TWs", Classes="<- ClsUdp", Flavors="<- OnlyTokio", Verifies="<- GateOn",
                              MaxFrames="= 3" if thorough else "= 2", MaxWrites="= 1", WLens="<- W4"), timeout=3000,
        needs=("PeerWsPack", "PeerWsOther", "FillWs", "FillEof"))
+    live(chk, "c20_live", consts(Transports="<- TWs", Classes="<- ClsUdp", Flavors="<- OnlyTokio", Verifies="<- GateOn", MaxFrames="= 2",
+                                 KeepHist="= FALSE", MaxQueued="= 1"))
     nd, n = emit(chk, "c20_emit", consts(Transports="<- TWs", Classes="<- ClsPong", Flavors="<- OnlyTokio", Verifies="<- GateOn",
                                          MaxFrames="= 2", FrameOK="<- FrameReal", MaxWrites="= 0", EmSizes="<- S134", MaxQueued="= 1"))
     net_replay(chk, nd, chk.seed, stride=1 if thorough else 6)
     for i in range(3 if thorough else 1):
-        p, info = gen_net_trace(f"c20_trace{i}", "ws", chk.seed * 100 + i, sessions=4, nbytes=200000 if thorough else 12000)
+        p, info = gen_net_trace(f"c20_trace{i}", "ws", chk.seed * 100 + i, sessions=8 if thorough else 4, nbytes=40000 if thorough else 12000)
         if i == 0:
             sample_trace(chk, p, 10)
         trace_validate(chk, f"c20_tv{i}", p, "websocket session")
